@@ -98,6 +98,26 @@ def c01_1(c: Ctx) -> None:
                 v = n.value
                 if isinstance(v, (ast.Subscript,)) or (isinstance(v, ast.Call) and call_name(v) in ('filter', 'set', 'dict')) or isinstance(v, (ast.ListComp, ast.GeneratorExp)):
                     c.fail(u, f'handler list rebound before the loop: {U(n)}', 'the looked-up handler list is sliced/filtered before the selection loop', node=n)
+    check_lookup_not_memoised(c, u, lookups)
+    # writer of event_type default
+    uv = c.unit(MOD, 'BaseEvent._set_event_type_from_class_name')
+    _c01_1_tail(c, uv)
+
+
+def collect_lookups(c: Ctx, u: Unit):
+    lookups = []
+    for n in own_nodes_list(u):
+        key = None
+        if isinstance(n, ast.Call) and call_name(n) == 'get' and isinstance(n.func, ast.Attribute) and isinstance(n.func.value, ast.Attribute) and n.func.value.attr == 'handlers' and n.args:
+            key = n.args[0]
+        elif isinstance(n, ast.Subscript) and isinstance(n.value, ast.Attribute) and n.value.attr == 'handlers' and isinstance(n.ctx, ast.Load):
+            key = n.slice
+        if key is not None:
+            lookups.append((n, U(key)))
+    return lookups
+
+
+def check_lookup_not_memoised(c: Ctx, u: Unit, lookups) -> None:
     # the selection is recomputed from the live registry on every call: no memoisation (a cached list misses handlers registered later)
     g = c.cfg(u)
     self_ = u.params()[0]
@@ -118,8 +138,9 @@ def c01_1(c: Ctx) -> None:
                 break
         else:
             c.ok(where(u, node_), f'every path to a return reads self.handlers under {k}')
-    # writer of event_type default
-    uv = c.unit(MOD, 'BaseEvent._set_event_type_from_class_name')
+
+
+def _c01_1_tail(c: Ctx, uv: Unit) -> None:
     okv = False
     for n in own_nodes_list(uv):
         if isinstance(n, ast.Assign) and len(n.targets) == 1 and isinstance(n.targets[0], ast.Subscript) and U(n.targets[0].slice) == "'event_type'":
